@@ -38,9 +38,13 @@ pub fn check(t: &Trace<'_>, out: &mut CaseOut) -> bool {
             out.count("connections_skipped_clock_spin", 1);
             continue;
         }
-        if !continuous || !ci.stream_ok {
+        if !ci.stream_ok {
             out.count("connections_not_continuously_polled", 1);
             continue;
+        }
+        if !continuous {
+            // the application was away for a while: only "never too early" is judged
+            out.count("connections_not_continuously_polled", 1);
         }
         out.count("connections_judged", 1);
         let pings: Vec<&crate::refcodec::CRec> = c.out.packets.iter().filter(|p| matches!(p.pkt, CPacket::PingReq)).collect();
